@@ -551,7 +551,14 @@ func finish(p *Property, tier string, seed int64, planned int, results []CaseRes
 	if len(inconcl) > 0 {
 		cov["inconclusive_reasons"] = inconcl
 	}
-	ev := Evidence{PropertyID: p.ID, Tier: tier, Seed: seed, Level: p.Level, Coverage: cov, Assumptions: p.Assumptions,
+	assumptions := p.Assumptions
+	if assumptions == nil {
+		assumptions = []string{}
+	}
+	if depSamples == nil {
+		depSamples = []string{}
+	}
+	ev := Evidence{PropertyID: p.ID, Tier: tier, Seed: seed, Level: p.Level, Coverage: cov, Assumptions: assumptions,
 		WallS: time.Since(start).Seconds(), Violations: len(unknown), Verdict: verdict}
 	bz, _ := json.MarshalIndent(ev, "", " ")
 	os.WriteFile(filepath.Join(vd, "evidence", p.ID+".json"), append(bz, '\n'), 0o644)
